@@ -74,7 +74,9 @@ func propAuth(t *rapid.T) {
 	}
 	var trace []string
 	r := rux.New()
-	pos := rapid.IntRange(0, 2).Draw(t, "authPosition")
+	pos := rapid.IntRange(0, 3).Draw(t, "authPosition")
+	reqPath := "/p"
+	onlyGate := false // the route may carry the gate alone, without the "after" middleware
 	mw := func(n string) rux.HandlerFunc {
 		return func(c *rux.Context) { trace = append(trace, "enter "+n); c.Next(); trace = append(trace, "leave "+n) }
 	}
@@ -98,11 +100,26 @@ func propAuth(t *rapid.T) {
 		r.GET("/p", main, mw("after"))
 	case 1:
 		r.GET("/p", main, mw("before"), auth, mw("after"))
-	default:
+	case 2:
 		r.Group("/", func() { r.GET("/p", main, mw("after")) }, mw("before"), auth)
+	default:
+		// the gate is the route's own middleware, inside a group whose chain was grown by Use calls, and a sibling
+		// route with middleware of its own is registered after it
+		r.Group("/g", func() {
+			for i, n := 0, rapid.IntRange(0, 4).Draw(t, "groupUses"); i < n; i++ {
+				r.Use(mw(fmt.Sprintf("group%d", i)))
+			}
+			// (how many handlers each route appends decides whether a sloppy merge shares the group's slice)
+			own := []rux.HandlerFunc{auth, mw("after")}
+			sib := []rux.HandlerFunc{mw("sibling1"), mw("sibling2")}
+			r.GET("/p", main, own[:rapid.IntRange(1, 2).Draw(t, "ownMw")]...)
+			r.GET("/open", func(c *rux.Context) { c.WriteString("open") }, sib[:rapid.IntRange(1, 2).Draw(t, "siblingMw")]...)
+		})
+		reqPath = "/g/p"
+		onlyGate = true
 	}
 	rec := httptest.NewRecorder()
-	req := httptest.NewRequest("GET", "/p", nil)
+	req := httptest.NewRequest("GET", reqPath, nil)
 	if header != "" || kind == "empty-value" {
 		req.Header.Set("Authorization", header)
 	}
@@ -112,6 +129,12 @@ func propAuth(t *rapid.T) {
 	allow := wellFormed && (len(accounts) == 0 || (known && accPwd == pwd))
 	ran := strings.Contains(strings.Join(trace, ","), "main")
 	afterRan := strings.Contains(strings.Join(trace, ","), "enter after")
+	if onlyGate && !afterRan && !strings.Contains(strings.Join(trace, ","), "after") {
+		afterRan = ran // no "after" middleware on this route
+	}
+	if strings.Contains(strings.Join(trace, ","), "sibling") {
+		t.Fatalf("middleware of a sibling route ran for %s: trace=%v", reqPath, trace)
+	}
 	ctx := fmt.Sprintf("accounts=%q Authorization=%q (%s, user=%q pwd=%q) position=%d: status=%d body=%q trace=%v", accounts, header, kind, user, pwd, pos, rec.Code, rec.Body.String(), trace)
 	ev.Class("auth:" + kind)
 	if allow != ran || allow != afterRan {
@@ -145,7 +168,7 @@ func propAuth(t *rapid.T) {
 			t.Fatalf("wrong credentials must give 403, got %d: %s", rec.Code, ctx)
 		}
 	}
-	if pos > 0 && !strings.Contains(strings.Join(trace, ","), "leave before") {
+	if (pos == 1 || pos == 2) && !strings.Contains(strings.Join(trace, ","), "leave before") {
 		t.Fatalf("middleware before the gate did not resume: %s", ctx)
 	}
 	if len(accounts) > 0 || !wellFormed {
